@@ -229,6 +229,39 @@ func runC11(c *fw.Ctx) {
 				return
 			}
 			rootReadWhileDirty = false
+		case x < 84 && class == 'D' && len(keys) > 0 && len(keys) <= 4:
+			// every live key is deleted: the uncommitted trie is empty (its root is not a dirty node any more)
+			c.Tracef("del all (%d keys)", len(keys))
+			noteShared()
+			for _, ks := range keys {
+				grave[ks] = m[ks]
+				if err := wl.Upd(t, []byte(ks), nil, 0); err != nil {
+					fail("", "delete failed: %v", err)
+					return
+				}
+				delete(m, ks)
+			}
+			dirty, gcSinceMutation = true, 0
+			c.Count("tries_emptied_by_uncommitted_deletes", 1)
+			if r.Intn(2) == 0 { // two garbage-collection passes right away, the deletes still uncommitted
+				for k := 0; k < 2; k++ {
+					c.Tracef("gc")
+					gcSinceMutation++
+					c.Count("gc_on_dirty_trie", 1)
+					if err := t.DeleteNodes(); err != nil {
+						fail("", "DeleteNodes failed: %v", err)
+						return
+					}
+					c.Count("gc_passes", 1)
+					if len(pendingSnaps) == 0 {
+						pendingSnaps = append(pendingSnaps, st.Clone())
+					}
+					if !judge("gc", last, false) {
+						return
+					}
+				}
+				c.Count("two_gc_passes_on_an_emptied_uncommitted_trie", 1)
+			}
 		case x < 92:
 			if dirty && class != 'D' {
 				continue
@@ -304,7 +337,7 @@ func init() {
 			return 64000
 		},
 		Run:    runC11,
-		Floors: map[string]int64{"histories": 60000, "crash_points": 200000, "commits": 100000, "gc_passes": 30000, "readd_identical": 30000, "del_readd_same_window": 10000, "class:A": 10000, "class:B": 10000, "class:C": 10000, "class:D": 10000, "gc_on_dirty_trie": 5000, "root_reads_on_dirty_trie": 5000, "histories_on_pebble": 50},
+		Floors: map[string]int64{"tries_emptied_by_uncommitted_deletes": 1500, "two_gc_passes_on_an_emptied_uncommitted_trie": 700, "histories": 60000, "crash_points": 200000, "commits": 100000, "gc_passes": 30000, "readd_identical": 30000, "del_readd_same_window": 10000, "class:A": 10000, "class:B": 10000, "class:C": 10000, "class:D": 10000, "gc_on_dirty_trie": 5000, "root_reads_on_dirty_trie": 5000, "histories_on_pebble": 50},
 		Assumptions: []string{
 			"storage model: completed operations are durable, batches atomic; the state after i operations is what a crash after the i-th operation leaves",
 			"each scenario class has a classifier for the known findings that applies only to its specific mechanism (see DESIGN.md §6 C11)",
